@@ -146,7 +146,8 @@ def run_case(case):
     rendered = obsr.rendered
     g = 7
     hdr = {"lay": lay, "via": via, "cname": cname, "eofnl": bool(case.get("eofnl", True)),
-           "origvals": fr.plain_values(case, g)}
+           "origvals": fr.plain_values(case, g),
+           "docids": [ln["id"] for ln in case["text"] if ln["k"] == "doc"]}
     m = mx.new_model("C20")
     s = m.new_space("S")
     s2 = m.new_space("S2")
@@ -410,7 +411,10 @@ def corruptions(tr):
 
         def swap(o, t):
             ls = o["lines"]
-            idx = [i for i in range(len(ls) - 1) if ls[i][0] > 0 and ls[i + 1][0] > 0 and ls[i] != ls[i + 1]]
+            # (two lines of the BODY: the lines of the docstring statement are not the body's)
+            doc = set(t["hdr"].get("docids", []))
+            idx = [i for i in range(len(ls) - 1) if ls[i][0] > 0 and ls[i + 1][0] > 0 and ls[i] != ls[i + 1]
+                   and ls[i][0] not in doc and ls[i + 1][0] not in doc]
             if len(idx) < 2:
                 return False
             i = idx[-1]
